@@ -147,9 +147,28 @@ func runC19(c *report.Ctx) {
 				if c2, isC := v.(*ssa.Const); isC && c2.Value != nil {
 					return true // literal: length is a compile-time fact (checked by the compiler's constant folding of len)
 				}
+				// len(TrimX(y, …)) <= len(y): a bound on the untrimmed string bounds the trimmed one
+				same := func(measured ssa.Value) bool {
+					cur := v
+					for i := 0; i < 3; i++ {
+						if cur == measured || sameElemLoad(cur, measured) {
+							return true
+						}
+						tc, ok := cur.(*ssa.Call)
+						if !ok || tc.Call.StaticCallee() == nil || len(tc.Call.Args) == 0 {
+							return false
+						}
+						k := an.FuncKey(tc.Call.StaticCallee())
+						if !strings.HasPrefix(k, "strings.Trim") {
+							return false
+						}
+						cur = tc.Call.Args[0]
+					}
+					return false
+				}
 				return an.AnyAtom(gs, func(a an.Atom) bool {
 					lx, ok := a.X.(*ssa.Call)
-					if !ok || len(lx.Call.Args) != 1 || lx.Call.Args[0] != v {
+					if !ok || len(lx.Call.Args) != 1 || !same(lx.Call.Args[0]) {
 						return false
 					}
 					if b, isB := lx.Call.Value.(*ssa.Builtin); !isB || b.Name() != "len" {
@@ -710,4 +729,34 @@ func alwaysNonNilResult(p *an.Prog, f *ssa.Function, idx int) bool {
 		}
 	}
 	return any
+}
+
+// sameElemLoad: two loads of the same constant-index element of the same (never re-assigned) slice value.
+func sameElemLoad(a, b ssa.Value) bool {
+	la, ok1 := a.(*ssa.UnOp)
+	lb, ok2 := b.(*ssa.UnOp)
+	if !ok1 || !ok2 || la.Op != token.MUL || lb.Op != token.MUL {
+		return false
+	}
+	ia, ok1 := la.X.(*ssa.IndexAddr)
+	ib, ok2 := lb.X.(*ssa.IndexAddr)
+	if !ok1 || !ok2 || ia.X != ib.X {
+		return false
+	}
+	ka, ok1 := constInt(ia.Index)
+	kb, ok2 := constInt(ib.Index)
+	if !ok1 || !ok2 || ka != kb {
+		return false
+	}
+	// the slice must not be written through in the function (string elements of a Split result are not)
+	for _, r := range *ia.X.Referrers() {
+		if x, ok := r.(*ssa.IndexAddr); ok {
+			for _, rr := range *x.Referrers() {
+				if st, ok := rr.(*ssa.Store); ok && st.Addr == ssa.Value(x) {
+					return false
+				}
+			}
+		}
+	}
+	return true
 }
